@@ -9,7 +9,7 @@ PROPERTY = "C12"
 READY = True
 THEOREMS = [
     "C12.marks", "C12.resize_exact", "C12.fit_exact", "C12.width_bounds", "C12.rectangular", "C12.separators",
-    "C12.cell_content", "C12.cell_default", "C12.limits",
+    "C12.cell_content", "C12.cell_default", "C12.full_when_fits", "C12.title_content", "C12.limits",
 ]
 
 
@@ -534,6 +534,29 @@ def effective_limits(desc):
     return tuple(fl)
 
 
+def spec_body(desc, cols):
+    """expected body: records (lists), None for a break line, "skip" for the skipped-records line; and the number
+    the skipped line has to announce"""
+    pos = {f["name"]: i for i, f in enumerate(_fields(desc))}
+    records = desc["records"]
+    body, prev = [], None
+    bpos = [pos[c[0]["name"]] for c in cols if c[2]]
+    for r in records:
+        cur = [r[p] for p in bpos]
+        if prev is not None and prev != cur:
+            body.append(None)
+        body.append(r)
+        prev = cur
+    nf, nl = effective_limits(desc)
+    skipped = None
+    if nf is not None and nl is not None and len(body) > nf + nl + 1:
+        first = body[:nf] if nf else []
+        last = body[-nl:] if nl else []
+        skipped = len(records) - sum(1 for x in first + last if x is not None)
+        body = first + ["skip"] + last
+    return body, skipped
+
+
 def oracle_table(desc, rep):
     if not rep.startswith("ok "):
         return "rejected: a well-formed table gives %s" % rep
@@ -574,21 +597,7 @@ def oracle_table(desc, rep):
             cells.append([spec_fit(str(it), w, (not isinstance(it, str)) and _is_right(it))])
         exp.append(("title", cells))
     exp.append(("border", border))
-    body, prev = [], None
-    bpos = [pos[c[0]["name"]] for c in cols if c[2]]
-    for r in records:
-        cur = [r[p] for p in bpos]
-        if prev is not None and prev != cur:
-            body.append(None)
-        body.append(r)
-        prev = cur
-    nf, nl = effective_limits(desc)
-    skipped = None
-    if nf is not None and nl is not None and len(body) > nf + nl + 1:
-        first = body[:nf] if nf else []
-        last = body[-nl:] if nl else []
-        skipped = len(records) - sum(1 for x in first + last if x is not None)
-        body = first + ["skip"] + last
+    body, skipped = spec_body(desc, cols)
     for x in body:
         if x is None:
             exp.append(("break", "|" + " " * (W - 2) + "|"))
@@ -735,7 +744,7 @@ def gen_width(rng):
 def col_str(rng, c, plain=False):
     """one column description, optionally decorated with what the parser tolerates"""
     deco = (not plain) and rng.random() < 0.3
-    sp = lambda: " " * rng.randint(0, 2) if deco else ""
+    sp = lambda: rng.choice([" ", " ", " ", "\t", "\xa0", "\u2003"]) * rng.randint(0, 2) if deco else ""
     s = sp() + c["f"]
     if c.get("mod") is not None:
         s += "/" + c["mod"]
@@ -781,7 +790,14 @@ def gen_desc(rng, big=False):
     if rng.random() < 0.4:
         rng.choice(fields)["enum"] = gen_enum(rng)
     profiles = [rng.choice("iiIssnbf") for _ in fields]
-    nrec = rng.choice([0, 1, 2, 3, 5, 8, 12] + ([20, 40] if big else []))
+    fmt_limits = rng.choice([None, None, None, "*", [rng.randint(0, 4), rng.randint(0, 4)],
+                             [rng.randint(0, 4), rng.randint(0, 4)]])
+    limits = None
+    if rng.random() < 0.35:
+        limits = rng.choice([[rng.randint(0, 4), rng.randint(0, 4)], [rng.randint(0, 4), rng.randint(0, 4)],
+                             [None, rng.randint(0, 4)], [rng.randint(0, 4), None], [None, None]])
+    limited = isinstance(limits or fmt_limits, list) and None not in (limits or fmt_limits)
+    nrec = rng.choice(([2, 3, 4, 5, 6, 8, 12] if limited else [0, 1, 2, 3, 5, 8, 12]) + ([20, 40] if big else []))
     records, prev = [], None
     for _ in range(nrec):
         r = []
@@ -806,12 +822,6 @@ def gen_desc(rng, big=False):
         if rng.random() < 0.1:
             cols.insert(rng.randint(0, len(cols)), {"f": rng.choice(names), "mod": None, "brk": rng.random() < 0.3,
                                                     "w": "hidden"})
-    fmt_limits = rng.choice([None, None, None, "*", [rng.randint(0, 4), rng.randint(0, 4)],
-                             [rng.randint(0, 4), rng.randint(0, 4)]])
-    limits = None
-    if rng.random() < 0.35:
-        limits = rng.choice([[rng.randint(0, 4), rng.randint(0, 4)], [rng.randint(0, 4), rng.randint(0, 4)],
-                             [None, rng.randint(0, 4)], [rng.randint(0, 4), None], [None, None]])
     desc = {
         "valid": True, "fields": fields, "records": records, "cols": cols, "fmt_limits": fmt_limits,
         "limits": limits,
@@ -1002,8 +1012,15 @@ def tags(case, replies):
     lines = [dec_str(t) for t in rep.split()[2:]]
     yield "records:%s" % min(len(desc["records"]), 13)
     yield "columns:%d" % max(0, lines[0].count("+") - 1)
-    if any(l.startswith("|... ") and "skipped" in l for l in lines):
-        yield "feature:records-skipped"
+    if desc.get("valid"):
+        try:
+            body, skipped = spec_body(desc, visible_columns(desc))
+            if skipped is not None:
+                yield "feature:records-skipped"
+            if None in body:
+                yield "feature:break-line-shown"
+        except Exception:
+            pass
     if any("..." in l or l.endswith(".|") for l in lines[1:]):
         yield "feature:truncated-cell"
     if "++" in lines[0]:
@@ -1034,7 +1051,9 @@ LEVEL_TEXT = ("Kernel-checked for all tables of the model (any records, columns,
               "resize_exact); every printed line has length sum(widths)+ncols+1 (rectangular); title and record "
               "lines carry '|' under every '+' of the border, framed lines start and end with '|' (separators); the "
               "characters between two separators are the fitted text of that record's own field (cell_content); "
-              "negotiated widths lie within min/max in every reachable state (width_bounds); every record appears in "
+              "negotiated widths lie within min/max in every reachable state (width_bounds) and are, on the first "
+              "printing, wide enough for every visible cell and the title up to max, so a value that fits max is never "
+              "cut (full_when_fits); title cells are the field's own title lines (title_content); every record appears in "
               "order, break lines only directly before a record; with limits exactly first/last lines plus one "
               "skipped line whose number is the count of hidden records (>= 1) and adds up to the total (limits). "
               "Model = code rests on the differential run (all rendered lines compared exactly).")
